@@ -93,3 +93,172 @@ add(Contract(
                        ("marker", "marker == state.src[P0]")],
                "dec": "maximum - pos"}},
 ))
+
+# ------------------------------------------------------------------ heading
+RULE_PARAMS = {"state": "obj:StateBlock", "startLine": "int", "endLine": "int", "silent": "bool"}
+PURE = [
+    ("silent-pure", "implies(silent, ntokens(state) == old(ntokens(state)) and state.line == old(state.line) and state.level == old(state.level))"),
+    ("fail-pure", "implies(not result, ntokens(state) == old(ntokens(state)) and state.line == old(state.line) and state.level == old(state.level))"),
+    ("level", "state.level == old(state.level)"),
+    ("start-nonempty", "implies(result, P0 < old(state.eMarks[startLine]))"),
+]
+add(Contract(
+    "markdown_it.rules_block.heading.heading", props=["C01", "C03", "C08"], params=RULE_PARAMS,
+    ghost={"defs": {"P0": P0, "T": "new_tokens(state)", "ML": "len(new_tokens(state)[0].markup)"}},
+    requires=wf() + RULE_RANGE,
+    ensures=PURE + [
+        ("line", "implies(result and not silent, state.line == startLine + 1)"),
+        ("three-tokens", "implies(result and not silent, len(T) == 3)"),
+        ("types", "implies(result and not silent, T[0].type == 'heading_open' and T[1].type == 'inline' and T[2].type == 'heading_close')"),
+        ("nesting", "implies(result and not silent, T[0].nesting == 1 and T[1].nesting == 0 and T[2].nesting == -1)"),
+        ("levels", "implies(result and not silent, T[0].level == old(state.level) and T[1].level == old(state.level) + 1 and T[2].level == old(state.level))"),
+        ("block", "implies(result and not silent, T[0].block and T[1].block and T[2].block)"),
+        ("map-open", "implies(result and not silent, T[0].map == [startLine, startLine + 1])"),
+        ("map-inline", "implies(result and not silent, T[1].map == [startLine, startLine + 1])"),
+        ("children", "implies(result and not silent, T[1].children == [])"),
+        ("markup-len", "implies(result and not silent, 1 <= ML and ML <= 6)"),
+        ("markup-src", "implies(result and not silent, T[0].markup == state.src[P0:P0 + ML] and T[2].markup == T[0].markup)"),
+        ("markup-hashes", "implies(result and not silent, forall(k, 0, ML, T[0].markup[k] == '#'))"),
+        ("markup-count", "implies(result and not silent, P0 + ML >= state.eMarks[startLine] or state.src[P0 + ML] != '#')"),
+        ("tags", "implies(result and not silent, T[0].tag == T[2].tag)"),
+    ],
+    loops={0: {"types": {"ch": "optchar"},
+               "inv": [("level-pos", "level == pos - P0"), ("level-lo", "level >= 1"), ("level-hi", "level <= 7"),
+                       ("hashes", "forall(k, P0, pos, state.src[k] == '#')"),
+                       ("P0-max", "P0 < maximum"), ("pos-max", "pos <= maximum"), ("max", "maximum == state.eMarks[startLine]"),
+                       ("ch-none", "iff(ch is None, pos >= len(state.src))"),
+                       ("ch-src", "implies(pos < len(state.src), ch == state.src[pos])")],
+               "dec": "maximum + 8 - pos - level"}},
+))
+
+# ------------------------------------------------------------------ generic rule contract (dispatch through rule lists)
+# DESIGN.md 3.3: what every block rule guarantees its caller. Built-in rules are proved against it
+# (behavioural subtyping, see RC_CHECK below); plugins are assumed to satisfy it.
+add(Contract(
+    "<block_rule>", params={"state": "obj:StateBlock", "startLine": "int", "endLine": "int", "silent": "bool"},
+    result="bool", assume_only=True,
+    requires=wf() + [("range", "0 <= startLine and startLine < endLine and endLine <= state.lineMax")],
+    modifies=["state.line", "state.parentType", "state.tight"],
+    ensures=[("silent-pure", "implies(silent, state.line == old(state.line))"),
+             ("fail-pure", "implies(not result, state.line == old(state.line))"),
+             ("progress", "implies(result and not silent, old(startLine) < state.line and state.line <= state.lineMax)")],
+))
+add(Contract(
+    "markdown_it.ruler.Ruler.getRules", params={"self": "obj:Ruler", "chainName": "atom"}, result="atomlist",
+    modifies=["self.__cache__"], ensures=[],
+))
+add(Contract(
+    SB + "getLines", params={"self": "obj:StateBlock", "begin": "int", "end": "int", "indent": "int", "keepLastLF": "bool"},
+    result="str", assume_only=True, ghost={"result_fun": "GetLines"},
+    requires=[("begin", "0 <= begin"), ("end", "end <= len(self.bMarks) - 1")],
+))
+
+# ------------------------------------------------------------------ code
+add(Contract(
+    "markdown_it.rules_block.code.code", props=["C01", "C03", "C08"], params=RULE_PARAMS,
+    ghost={"defs": {"P0": P0, "T": "new_tokens(state)"}},
+    requires=wf() + RULE_RANGE,
+    ensures=[
+        ("fail-pure", "implies(not result, ntokens(state) == old(ntokens(state)) and state.line == old(state.line))"),
+        ("level", "state.level == old(state.level)"),
+        ("line", "implies(result, startLine < state.line and state.line <= endLine)"),
+        ("one-token", "implies(result, len(T) == 1 and T[0].type == 'code_block' and T[0].nesting == 0 and T[0].block and T[0].level == old(state.level))"),
+        ("map", "implies(result, T[0].map == [startLine, state.line])"),
+        ("ends-nonblank", "implies(result, state.bMarks[state.line - 1] + state.tShift[state.line - 1] < state.eMarks[state.line - 1] or state.line == startLine + 1)"),
+        ("content", "implies(result, T[0].content == strfun('GetLines', startLine, state.line, 4 + state.blkIndent, False) + '\\n')"),
+    ],
+    loops={0: {"inv": [("next-lo", "nextLine >= startLine + 1"), ("next-hi", "nextLine <= endLine"),
+                       ("last-lo", "last >= startLine + 1"), ("last-hi", "last <= nextLine"),
+                       ("last-nonblank", "last == startLine + 1 or state.bMarks[last - 1] + state.tShift[last - 1] < state.eMarks[last - 1]")],
+               "dec": "endLine - nextLine"}},
+))
+
+# ------------------------------------------------------------------ paragraph
+PARA_TOKENS = [
+    ("three-tokens", "implies(result and not silent, len(T) == 3)"),
+    ("nesting", "implies(result and not silent, T[0].nesting == 1 and T[1].nesting == 0 and T[2].nesting == -1)"),
+    ("levels", "implies(result and not silent, T[0].level == old(state.level) and T[1].level == old(state.level) + 1 and T[2].level == old(state.level))"),
+    ("block", "implies(result and not silent, T[0].block and T[1].block and T[2].block)"),
+    ("children", "implies(result and not silent, T[1].children == [])"),
+]
+add(Contract(
+    "markdown_it.rules_block.paragraph.paragraph", props=["C01", "C03"], params=RULE_PARAMS,
+    ghost={"defs": {"P0": P0, "T": "new_tokens(state)"}},
+    requires=wf() + RULE_RANGE,
+    ensures=[
+        ("always-true", "result"),
+        ("level", "state.level == old(state.level)"),
+        ("line", "startLine < state.line and state.line <= state.lineMax"),
+        ("types", "T[0].type == 'paragraph_open' and T[1].type == 'inline' and T[2].type == 'paragraph_close'"),
+        ("three-tokens", "len(T) == 3"),
+        ("nesting", "T[0].nesting == 1 and T[1].nesting == 0 and T[2].nesting == -1"),
+        ("levels", "T[0].level == old(state.level) and T[1].level == old(state.level) + 1 and T[2].level == old(state.level)"),
+        ("block", "T[0].block and T[1].block and T[2].block"),
+        ("children", "T[1].children == []"),
+        ("map-open", "T[0].map == [startLine, state.line]"),
+        ("map-inline", "T[1].map == [startLine, state.line]"),
+        ("parentType-restored", "state.parentType == old(state.parentType)"),
+        ("ends-nonblank", "state.line == startLine + 1 or state.bMarks[state.line - 1] + state.tShift[state.line - 1] < state.eMarks[state.line - 1]"),
+    ],
+    loops={0: {"types": {"terminate": "bool"},
+               "inv": [("next-lo", "nextLine >= startLine + 1"), ("next-hi", "nextLine <= max(endLine, startLine + 1)"),
+                       ("endLine", "endLine == state.lineMax"), ("line", "state.line == old(state.line)"),
+                       ("prev-nonblank", "nextLine == startLine + 1 or state.bMarks[nextLine - 1] + state.tShift[nextLine - 1] < state.eMarks[nextLine - 1]")],
+               "dec": "endLine - nextLine"},
+           1: {"inv": [("next-lo", "nextLine >= startLine + 1"), ("next-hi", "nextLine < endLine"),
+                       ("endLine", "endLine == state.lineMax"), ("line", "state.line == old(state.line)"),
+                       ("terminate", "not terminate"),
+                       ("cur-nonblank", "state.bMarks[nextLine] + state.tShift[nextLine] < state.eMarks[nextLine]")],
+               "dec": "len(terminatorRules) - _it1"}},
+))
+
+# ------------------------------------------------------------------ fence
+add(Contract(
+    "markdown_it.rules_block.fence.fence", props=["C01", "C03", "C08"], params=RULE_PARAMS,
+    ghost={"defs": {"P0": P0, "T": "new_tokens(state)", "ML": "len(new_tokens(state)[0].markup)"}},
+    requires=wf() + RULE_RANGE,
+    ensures=PURE + [
+        ("line", "implies(result and not silent, startLine < state.line and state.line <= endLine)"),
+        ("one-token", "implies(result and not silent, len(T) == 1 and T[0].type == 'fence' and T[0].nesting == 0 and T[0].block and T[0].level == old(state.level))"),
+        ("map", "implies(result and not silent, T[0].map == [startLine, state.line])"),
+        ("markup-len", "implies(result and not silent, ML >= 3 and P0 + ML <= state.eMarks[startLine])"),
+        ("markup-src", "implies(result and not silent, T[0].markup == state.src[P0:P0 + ML])"),
+        ("markup-run", "implies(result and not silent, forall(k, 0, ML, T[0].markup[k] == state.src[P0]) and (state.src[P0] == '~' or state.src[P0] == '`'))"),
+        ("markup-count", "implies(result and not silent, P0 + ML >= len(state.src) or state.src[P0 + ML] != state.src[P0])"),
+        ("info", "implies(result and not silent, T[0].info == state.src[P0 + ML:state.eMarks[startLine]])"),
+    ],
+    loops={0: {"inv": [("next-lo", "nextLine >= startLine"), ("next-hi", "nextLine < endLine"),
+                       ("no-end", "not haveEndMarker"), ("len", "length >= 3"),
+                       ("line", "state.line == old(state.line)")],
+               "dec": "endLine - nextLine"}},
+))
+
+# ------------------------------------------------------------------ lheading
+add(Contract(
+    "markdown_it.rules_block.lheading.lheading", props=["C01", "C03", "C08"], params=RULE_PARAMS,
+    ghost={"defs": {"P0": P0, "T": "new_tokens(state)"}},
+    requires=wf() + RULE_RANGE,
+    ensures=[
+        ("fail-pure", "implies(not result, ntokens(state) == old(ntokens(state)) and state.line == old(state.line))"),
+        ("level", "state.level == old(state.level)"),
+        ("line", "implies(result, startLine + 1 < state.line and state.line <= endLine)"),
+        ("three-tokens", "implies(result, len(T) == 3)"),
+        ("types", "implies(result, T[0].type == 'heading_open' and T[1].type == 'inline' and T[2].type == 'heading_close')"),
+        ("nesting", "implies(result, T[0].nesting == 1 and T[1].nesting == 0 and T[2].nesting == -1)"),
+        ("levels", "implies(result, T[0].level == old(state.level) and T[1].level == old(state.level) + 1 and T[2].level == old(state.level))"),
+        ("block", "implies(result, T[0].block and T[1].block and T[2].block)"),
+        ("map-open", "implies(result, T[0].map == [startLine, state.line])"),
+        ("map-inline", "implies(result, T[1].map == [startLine, state.line - 1])"),
+        ("markup", "implies(result, (T[0].markup == '=' or T[0].markup == '-') and T[2].markup == T[0].markup)"),
+        ("markup-src", "implies(result, T[0].markup == state.src[state.bMarks[state.line - 1] + state.tShift[state.line - 1]])"),
+        ("underline-nonblank", "implies(result, state.bMarks[state.line - 1] + state.tShift[state.line - 1] < state.eMarks[state.line - 1])"),
+        ("parentType-restored", "implies(result, state.parentType == old(state.parentType))"),
+    ],
+    loops={0: {"types": {"terminate": "bool", "marker": "char", "pos": "int", "maximum": "int", "level": "optint"},
+               "inv": [("next-lo", "nextLine >= startLine + 1"), ("next-hi", "nextLine <= max(endLine, startLine + 1)"),
+                       ("line", "state.line == old(state.line)"), ("level-none", "level is None")],
+               "dec": "endLine - nextLine"},
+           1: {"inv": [("next-lo", "nextLine >= startLine + 1"), ("next-hi", "nextLine < endLine"),
+                       ("line", "state.line == old(state.line)"), ("terminate", "not terminate"), ("level-none", "level is None")],
+               "dec": "len(terminatorRules) - _it1"}},
+))
